@@ -46,6 +46,17 @@ def apply_scenarios(rng, n):
                     for k in list(o['dur']['map']):
                         o['dur']['map'][k] = rng.choice([0.25, 0.3, 0.4])
                     o['cb_dur'] = rng.choice([0.5, 1.0])
+        if rng.random() < .25 and not any(o.get('join_first') for o in ops):
+            # the pool has been used and wound down before (a map call that ended its workers, a join, a terminate): the apply
+            # submissions start everything again, time limits included
+            r0 = rng.random()
+            if r0 < .4:
+                ops.insert(0, {'op': rng.choice(['map', 'map_unordered']), 'n': rng.randint(2, 6), 'chunk_size': 1})
+            elif len(ops) > 1:
+                ops.insert(1, {'op': rng.choice(['stop_and_join', 'terminate'])})
+            else:
+                ops.insert(0, {'op': 'apply_batch', 'tasks': [{'idx': 0}], 'dur': {'kind': 'map', 'map': {}, 'default': 0.01}, 'get_timeout': 30})
+                ops.insert(1, {'op': rng.choice(['stop_and_join', 'terminate'])})
         sc = {'seed': rng.randint(0, 10 ** 6), 'pool': pool, 'ops': ops}
         if ops[0].get('join_first') and rng.random() < .5:
             # the workers are kept when the pool is joined, and the pool is ended right afterwards (as by leaving the with-block): no
@@ -125,15 +136,31 @@ def run(chk):
             chk.mismatch('AsyncResult vs Mpire.Async', {'line': line}, i, m)
             if 'ESCAPED' in i or i.count('cb:') > 1:
                 chk.violation('exactly_one_callback', {'line': line}, i, 'one outcome, one callback, no exception from _set', input_class='async_set')
+    # the failure of an apply task travels like any other result: whatever the worker decides to ship for an exception has to get through
+    # the results queue of that pool (plain pickle for worker threads whatever use_dill says), or the result never becomes ready
+    for shape in small.EXC_SHAPES:
+        for use_dill in (False, True):
+            for sm in ('fork', 'threading'):
+                bits, kind, shipped_ok, faithful, cause = small.exc_run(shape, use_dill, sm)
+                chk.count('what is shipped for a failing task gets through the results queue (real pickle / dill)', key=(shape, use_dill, sm), nontrivial=True,
+                          sample={'exception_shape': shape, 'use_dill': use_dill, 'start_method': sm, 'shipped': kind})
+                if not shipped_ok:
+                    chk.violation('failed_result_becomes_ready', {'exception_shape': shape, 'use_dill': use_dill, 'start_method': sm},
+                                  {'shipped_not_serialisable_by_queue_pickler': True}, 'the failure reaches the caller (as itself or as CannotPickleExceptionError)', input_class=shape)
     scs = apply_scenarios(rng, 300 if chk.tier == 'quick' else 5000)
     for sc in scs:
-        sc['want_aproto'] = True
+        # (the protocol tie is for pools used through apply only: histories that begin with a map call or contain a terminate are judged
+        # by the oracles)
+        sc['want_aproto'] = all(x['op'] in ('apply_batch', 'stop_and_join') for x in sc['ops']) and \
+            not any(x['op'] == 'stop_and_join' for x in sc['ops'][:-1])
         if rng.random() < .4:
             sc['ops'].append({'op': 'stop_and_join'})
     obs = run_scenarios(chk, 'apply histories under DetSim', scs, {'C09', 'C03'},
-                  nontrivial=lambda sc, o: len(sc['ops'][0]['tasks']) >= 2,
-                  dist=lambda sc, o: {'failures': bool((sc['ops'][0].get('fail') or {}).get('at')), 'timeouts': bool(sc['ops'][0].get('task_timeout')),
-                                      'join_first': bool(sc['ops'][0].get('join_first')), 'start': sc['pool']['start_method']})
+                  nontrivial=lambda sc, o: any(len(x.get('tasks', ())) >= 2 for x in sc['ops']),
+                  dist=lambda sc, o: {'failures': any((x.get('fail') or {}).get('at') for x in sc['ops']), 'timeouts': any(x.get('task_timeout') for x in sc['ops']),
+                                      'join_first': any(x.get('join_first') for x in sc['ops']), 'start': sc['pool']['start_method'],
+                                      'wound_down_before': any(x['op'] in ('terminate', 'map', 'map_unordered') for x in sc['ops']) or
+                                      any(x['op'] == 'stop_and_join' for x in sc['ops'][:-1])})
     aproto_tie(chk, drv, scs, obs)
     # apply submissions while a lazy map-family call of the same pool is open (ordered or unordered, some of its tasks still queued):
     # each apply task is called as func(*args) and settles with what it returned or raised
